@@ -120,10 +120,13 @@ def make_engine(name, bits=0, kind="univ", typeres=False, **kw):
     Scalar("My", schema_name=name)(MyScalar)
     if kind == "plain":
         for f in LOGGED_PLAIN:
-            Resolver(f, schema_name=name)(universal)
+            if not (typeres and f == "Query.node"):
+                Resolver(f, schema_name=name)(universal)
     if typeres:
         TypeResolver("Node", schema_name=name)(_tr_node)
         Resolver("Query.u", schema_name=name, type_resolver=_tr_field)(universal)
+        # a field-level type resolver on a field whose abstract type ALSO has a type-level one: the most specific (field-level) decides
+        Resolver("Query.node", schema_name=name, type_resolver=_tr_field)(universal)
     if kind == "univ":
         kw.setdefault("custom_default_resolver", universal)
     kw.setdefault("query_cache_decorator", DictCache())
